@@ -92,6 +92,20 @@ Proof.
   pose proof (Abs_len k emit L R inv cs K _ _ _ _ HA HI HJ). unfold dmeas, CAP. lia.
 Qed.
 
+(* the only error the driver can end in: the clear ValueError of get_next_chunk, and only when a
+   whole window of cs keys on a trimmed side is one run that continues beyond the window *)
+Definition long_run_in (X:list Z) : Prop :=
+  exists a, 0 <= a /\ a + cs < len X /\ forall k, a < k < a + cs -> nthZ X (k - 1) = nthZ X k.
+Definition LongRun : Prop :=
+  (v_ltrim v = true /\ long_run_in L) \/ (v_rtrim v = true /\ long_run_in R).
+
+Lemma fetch_raise_long trim start X :
+  0 <= start <= len X -> fetch_chunk trim start cs X = Raise E_ValueError -> trim = true /\ long_run_in X.
+Proof.
+  intros Hs Hr. destruct (fetch_chunk_raise trim start cs X Hcs Hs Hr) as (Ht & Hlt & Hall).
+  split; [exact Ht|]. exists start. splits; try lia. exact Hall.
+Qed.
+
 (* ---------------------------------------------------------------- the three driver steps *)
 Definition refill_l (d:drv) : res drv :=
   if (i_off_ d + fi (df d) <? len L) && (snd (lch d) - fst (lch d) <=? fi (df d)) then
@@ -118,7 +132,7 @@ Lemma main_iter_unfold d :
 Proof. reflexivity. Qed.
 
 Lemma refill_l_ok d O : MidInv d O ->
-  refill_l d = Raise E_ValueError \/
+  (refill_l d = Raise E_ValueError /\ LongRun) \/
   exists d1, refill_l d = Ok d1 /\ MidInv d1 O /\ GI d1 = GI d /\ GJ d1 = GJ d /\
              fr (df d1) = fr (df d) /\ outr d1 = outr d /\ HeadL d1 /\ (HeadR d -> HeadR d1).
 Proof.
@@ -135,7 +149,7 @@ Proof.
     assert (Hinn : finner s = false).
     { destruct (finner s) eqn:Ein; [|reflexivity]. specialize (Hpinn eq_refl). lia. }
     destruct (fetch_chunk_spec (v_ltrim v) (snd lc) cs L Hcs ltac:(lia)) as [Hr|(b & data & Ef & Hck)].
-    + left. rewrite Hr. reflexivity.
+    + left. split; [rewrite Hr; reflexivity|]. left. apply (fetch_raise_long _ (snd lc)); [lia|exact Hr].
     + right. rewrite Ef. cbn [bind fst snd]. eexists. split; [reflexivity|].
       unfold GI, GJ, HeadL, HeadR, MidInv, Win, Pos, OutRel, params_of.
       cbn [df lch left_ i_max_ i_off_ rch right_ j_max_ j_off_ outl outr set_i fi fj fr lres rres finner
@@ -152,7 +166,7 @@ Proof.
 Qed.
 
 Lemma refill_r_ok d O : MidInv d O ->
-  refill_r d = Raise E_ValueError \/
+  (refill_r d = Raise E_ValueError /\ LongRun) \/
   exists d1, refill_r d = Ok d1 /\ MidInv d1 O /\ GI d1 = GI d /\ GJ d1 = GJ d /\
              fr (df d1) = fr (df d) /\ outr d1 = outr d /\ HeadR d1 /\ (HeadL d -> HeadL d1).
 Proof.
@@ -169,7 +183,7 @@ Proof.
     assert (Hinn : finner s = false).
     { destruct (finner s) eqn:Ein; [|reflexivity]. specialize (Hpinn eq_refl). lia. }
     destruct (fetch_chunk_spec (v_rtrim v) (snd rc) cs R Hcs ltac:(lia)) as [Hr|(b & data & Ef & Hck)].
-    + left. rewrite Hr. reflexivity.
+    + left. split; [rewrite Hr; reflexivity|]. right. apply (fetch_raise_long _ (snd rc)); [lia|exact Hr].
     + right. rewrite Ef. cbn [bind fst snd]. eexists. split; [reflexivity|].
       unfold GI, GJ, HeadL, HeadR, MidInv, Win, Pos, OutRel, params_of.
       cbn [df lch left_ i_max_ i_off_ rch right_ j_max_ j_off_ outl outr set_j fi fj fr lres rres finner
@@ -208,7 +222,7 @@ Qed.
 
 (* one iteration of the main loop *)
 Lemma main_iter_ok d O : DInv d O ->
-  main_iter v L R inv cs d = Raise E_ValueError \/
+  (main_iter v L R inv cs d = Raise E_ValueError /\ LongRun) \/
   (main_iter v L R inv cs d = Ok None /\ (GI d = len L \/ GJ d = len R)) \/
   (exists d' O', main_iter v L R inv cs d = Ok (Some d') /\ DInv d' O' /\ dmeas d' O' < dmeas d O).
 Proof.
@@ -255,11 +269,11 @@ Proof.
   assert (Hfr1 : fr (df (set_f d s')) = fr s') by reflexivity.
   assert (Hor1 : outr (set_f d s') = outr d) by reflexivity.
   pose proof (MidInv_lenO _ _ HM1) as HlenO1. rewrite Hfr1, Hor1 in HlenO1.
-  destruct (refill_l_ok _ _ HM1) as [Hr|(d1 & E1 & HMd1 & HI1 & HJ1 & Hfrd1 & Hord1 & HhL1 & _)];
-    [left; rewrite Hr; reflexivity|].
+  destruct (refill_l_ok _ _ HM1) as [(Hr & Hlong)|(d1 & E1 & HMd1 & HI1 & HJ1 & Hfrd1 & Hord1 & HhL1 & _)];
+    [left; split; [rewrite Hr; reflexivity|exact Hlong]|].
   rewrite E1. cbn [bind].
-  destruct (refill_r_ok _ _ HMd1) as [Hr|(d2 & E2 & HMd2 & HI2 & HJ2 & Hfrd2 & Hord2 & HhR2 & HhL2)];
-    [left; rewrite Hr; reflexivity|].
+  destruct (refill_r_ok _ _ HMd1) as [(Hr & Hlong)|(d2 & E2 & HMd2 & HI2 & HJ2 & Hfrd2 & Hord2 & HhR2 & HhL2)];
+    [left; split; [rewrite Hr; reflexivity|exact Hlong]|].
   rewrite E2. cbn [bind].
   right. right.
   destruct (flush_ok _ _ HMd2 (HhL2 HhL1) HhR2) as (HD & HIf & HJf).
@@ -269,14 +283,14 @@ Qed.
 
 (* ---------------------------------------------------------------- the main loop *)
 Lemma main_loop_ok : forall fuel d O, DInv d O -> Z.of_nat fuel > dmeas d O ->
-  main_loop fuel v L R inv cs d = Raise E_ValueError \/
+  (main_loop fuel v L R inv cs d = Raise E_ValueError /\ LongRun) \/
   exists d' O', main_loop fuel v L R inv cs d = Ok d' /\ DInv d' O' /\ (GI d' = len L \/ GJ d' = len R).
 Proof.
   induction fuel as [|fuel IH]; intros d O HD Hf.
   - destruct HD as (HM & _). pose proof (dmeas_nonneg d O HM). lia.
   - cbn [main_loop].
-    destruct (main_iter_ok d O HD) as [Hr|[(E & Hend)|(d' & O' & E & HD' & Hm)]].
-    + left. rewrite Hr. reflexivity.
+    destruct (main_iter_ok d O HD) as [(Hr & Hlong)|[(E & Hend)|(d' & O' & E & HD' & Hm)]].
+    + left. split; [rewrite Hr; reflexivity|exact Hlong].
     + right. rewrite E. cbn [bind]. exists d, O. auto.
     + rewrite E. cbn [bind]. apply (IH d' O' HD'). lia.
 Qed.
@@ -407,15 +421,15 @@ Definition spec_out : list Z * list Z :=
   (if WL then map fst sp else [], map snd sp).
 
 Theorem streamed_ok :
-  streamed v L R inv cs = Ok spec_out \/ streamed v L R inv cs = Raise E_ValueError.
+  streamed v L R inv cs = Ok spec_out \/ (streamed v L R inv cs = Raise E_ValueError /\ LongRun).
 Proof.
   unfold streamed.
   pose proof (len_nonneg L) as HLn. pose proof (len_nonneg R) as HRn.
   destruct (fetch_chunk_spec (v_ltrim v) 0 cs L Hcs ltac:(lia)) as [Hr|(lb & ldata & El & HckL)];
-    [right; rewrite Hr; reflexivity|].
+    [right; split; [rewrite Hr; reflexivity|left; apply (fetch_raise_long _ 0); [lia|exact Hr]]|].
   rewrite El. cbn [bind].
   destruct (fetch_chunk_spec (v_rtrim v) 0 cs R Hcs ltac:(lia)) as [Hr|(rb & rdata & Er & HckR)];
-    [right; rewrite Hr; reflexivity|].
+    [right; split; [rewrite Hr; reflexivity|right; apply (fetch_raise_long _ 0); [lia|exact Hr]]|].
   rewrite Er. cbn [bind fst snd].
   set (buf := repeat 0 (Z.to_nat cs)).
   set (s0 := mkfsm 0 0 0 0 0 (-1) (-1) false buf buf).
@@ -433,8 +447,8 @@ Proof.
     - destruct WL; reflexivity. }
   assert (Hfuel : Z.of_nat (driver_fuel L R) > dmeas d0 []).
   { unfold driver_fuel, dmeas, CAP, GI, GJ, d0, s0. cbn [df i_off_ j_off_ fi fj]. unfold len. cbn [length]. nia. }
-  destruct (main_loop_ok (driver_fuel L R) d0 [] HD0 Hfuel) as [Hr|(d1 & O1 & E1 & HD1 & Hend)];
-    [right; rewrite Hr; reflexivity|].
+  destruct (main_loop_ok (driver_fuel L R) d0 [] HD0 Hfuel) as [(Hr & Hlong)|(d1 & O1 & E1 & HD1 & Hend)];
+    [right; split; [rewrite Hr; reflexivity|exact Hlong]|].
   rewrite E1. cbn [bind].
   pose proof HD1 as (HM1 & Hr1 & HhL1 & HhR1).
   pose proof (MidInv_bounds d1 O1 HM1) as (HI1 & HJ1).
